@@ -72,6 +72,11 @@ pub fn spawn_unipayload_handler(
                                                         )),
                                                     cluster_id: payload_cluster_id,
                                                 } => {
+                                                    #[cfg(feature = "verif")]
+                                                    klukai_types::verif::uni_seen_push(
+                                                        payload_cluster_id.0,
+                                                        cluster_id.0,
+                                                    );
                                                     if cluster_id != payload_cluster_id {
                                                         continue;
                                                     }
